@@ -45,8 +45,22 @@ from vlib.common import KResult, Violation, Disagreement, Property
 
 FIELD_NAMES = ['ticket', 'allowed', 'filesize', 'reason', 'username', 'status', 'privileged', 'nosuch']
 CLASS_FIELDS = {0: [0, 1, 2, 3], 1: [4, 5, 6]}      # message class -> attribute (field index) list
+CONN_NAMES = ['s', 'pN', 'p0', 'p1', 'q0', 'q1']    # connection objects (order = identity in the Lean driver)
 EXTRA_ROUNDS = 3
+EXTRA_ROUNDS_READERS = 8
 FAR = 10 ** 6
+SPAWN = ('raw', 'wait', 'exec')
+NEST = ('nwait', 'nexec')
+INF = (10 ** 12, 0, 0)
+
+
+def _rounds(case: dict) -> list:
+    extra = case.get('extra', EXTRA_ROUNDS_READERS if case.get('readers') else EXTRA_ROUNDS)
+    return case['rounds'] + [{'batch': [], 'fire': []}] * extra
+
+
+def _progs_of(op) -> list:
+    return op[4] if op[0] in ('msg', 'feed') and len(op) > 4 else []
 
 
 # --------------------------------------------------------------------------------------------
@@ -80,38 +94,82 @@ def _py_fields(matcher: dict) -> dict:
     return {FIELD_NAMES[f]: (_pred(e) if e[0] == 'p' else _const(e)) for f, e in matcher['fields']}
 
 
+def _check_matcher(kind: str, m: dict):
+    names = [f for f, _ in m['fields']]
+    assert len(names) == len(set(names)), 'duplicate field in matcher (dict keys are unique)'
+    if kind not in ('exec', 'nexec'):
+        assert (m['cls'] == 's') == (m['peer'] is None), 'raw/wait: peer given iff peer connection'
+
+
 def _validate(case: dict):
     """Script constraints that keep the harness' schedule well defined (a violated constraint is a
     harness error, never a finding)."""
-    spawned: dict[int, tuple[int, str, int]] = {}
+    spawned: dict[int, tuple[int, str, int]] = {}      # requests made by the driving task
+    by_handler: dict[int, str] = {}                     # requests made by message handlers: tag -> kind
     fired = set()
+    # first pass: every tag a handler program introduces (they may be referred to by later / earlier ops)
+    for rnd in case['rounds']:
+        for op in rnd['batch']:
+            progs = _progs_of(op)
+            if op[0] == 'msg':
+                assert not case.get('readers'), 'msg (delivered by the driving task) and reader tasks are not mixed'
+            if op[0] == 'feed':
+                assert case.get('readers'), 'feed needs reader tasks'
+            if op[0] in ('msg', 'feed'):
+                assert op[1] in CONN_NAMES, 'connection'
+            for prog in progs:
+                for a in prog:
+                    if a[0] in SPAWN or a[0] in NEST:
+                        assert a[1] not in by_handler, 'tag reused'
+                        by_handler[a[1]] = a[0]
+                        _check_matcher(a[0], a[-1])
+                        if a[0] == 'exec':
+                            assert a[2] in (0, 1), 'exec made by a handler: mode 0 / 1'
+                    elif a[0] in ('sleep', 'gate', 'nwait', 'nexec') and op[0] == 'msg':
+                        raise AssertionError('a handler of a message delivered by the driving task must not suspend')
+                    if a[0] == 'sleep':
+                        assert 0 <= a[1] <= 4
+                    if a[0] == 'close':
+                        assert a[1] in CONN_NAMES
     for r, rnd in enumerate(case['rounds']):
         for op in rnd['batch']:
-            if op[0] in ('raw', 'wait', 'exec'):
+            if op[0] in SPAWN:
                 tag = op[1]
-                assert tag not in spawned, 'tag reused'
+                assert tag not in spawned and tag not in by_handler, 'tag reused'
                 mode = op[2] if op[0] == 'exec' else 0
                 assert 0 <= mode <= 4, 'exec mode'
                 spawned[tag] = (r, op[0], mode)
-                m = op[-1]
-                names = [f for f, _ in m['fields']]
-                assert len(names) == len(set(names)), 'duplicate field in matcher (dict keys are unique)'
-                if op[0] != 'exec':
-                    assert (m['cls'] == 's') == (m['peer'] is None), 'raw/wait: peer given iff peer connection'
-            elif op[0] in ('cancelfut', 'canceltask'):
+                _check_matcher(op[0], op[-1])
+            elif op[0] == 'canceltask':
                 tag = op[1]
-                assert tag in spawned, 'cancel of unknown waiter'
+                assert tag in spawned, 'canceltask (by the driving task) of a waiter it did not spawn'
                 sr, kd, mode = spawned[tag]
                 # the caller task runs its first step one iteration after it was spawned
-                need = 0 if (op[0] == 'cancelfut' and kd == 'raw') else 1
-                assert r >= sr + need, 'cancel before the caller task (and its future) exists'
+                assert r >= sr + 1, 'cancel before the caller task (and its future) exists'
+            elif op[0] == 'cancelfut':
+                tag = op[1]
+                assert tag in spawned or tag in by_handler, 'cancel of unknown waiter'
+                if tag in spawned:
+                    sr, kd, mode = spawned[tag]
+                    need = 0 if kd == 'raw' else 1
+                    assert r >= sr + need, 'cancel before the caller task (and its future) exists'
+            for prog in _progs_of(op):
+                for a in prog:
+                    if a[0] == 'canceltask':
+                        # cancelling the task that awaits a nested request = cancelling a connection's reader task
+                        assert by_handler.get(a[1]) not in NEST, 'canceltask of a request awaited inline by a handler'
+                        assert a[1] in spawned or a[1] in by_handler
+                    if a[0] == 'cancelfut':
+                        assert a[1] in spawned or a[1] in by_handler
         for tag in rnd['fire']:
-            assert tag in spawned and tag not in fired, 'fire of unknown waiter / twice'
+            assert (tag in spawned or tag in by_handler) and tag not in fired, 'fire of unknown waiter / twice'
             fired.add(tag)
-            sr, kd, mode = spawned[tag]
-            assert not (kd == 'exec' and mode == 4), 'mode 4 never arms its timeout'
-            need = 3 if (kd == 'exec' and mode >= 2) else 2
-            assert r >= sr + need, 'timeout scheduled before the caller armed it'
+            if tag in spawned:
+                sr, kd, mode = spawned[tag]
+                assert not (kd == 'exec' and mode == 4), 'mode 4 never arms its timeout'
+                need = 3 if (kd == 'exec' and mode >= 2) else 2
+                assert r >= sr + need, 'timeout scheduled before the caller armed it'
+        assert len(rnd['fire']) <= 8
 
 
 def _deadlines(case: dict) -> dict[int, float]:
@@ -153,6 +211,10 @@ class _SendFail(Exception):
     pass
 
 
+class _ListenerFails(Exception):
+    pass
+
+
 class _LogCounter(logging.Handler):
     def __init__(self):
         super().__init__(level=logging.DEBUG)
@@ -167,43 +229,112 @@ class _LogCounter(logging.Handler):
             self.errors += 1
 
 
+class _StubWriter:
+    """what `DataConnection.disconnect` needs of a StreamWriter (nothing here suspends)"""
+
+    def __init__(self):
+        self._closed = False
+
+    def is_closing(self):
+        return self._closed
+
+    def close(self):
+        self._closed = True
+
+    async def wait_closed(self):
+        return None
+
+    def write(self, data):
+        pass
+
+    async def drain(self):
+        return None
+
+    def get_extra_info(self, key, default=None):
+        return ('10.0.0.1', 1) if key in ('peername', 'sockname') else default
+
+
 def _run_impl(case: dict) -> dict:
-    """Returns {'snaps': [canonical state after every script line], 'marks': [...]}"""
+    """Returns {'snaps': [canonical state after every script line], 'events': [...], 'armed': [...]}"""
     _validate(case)
     from aioslsk.network.network import Network, ExpectedResponse
-    from aioslsk.network.connection import PeerConnection, ServerConnection
+    from aioslsk.network.connection import (PeerConnection, ServerConnection, ConnectionState, CloseReason,
+                                            PeerConnectionType)
     from aioslsk.client import SoulSeekClient
     from aioslsk.settings import Settings
-    from aioslsk.events import EventBus
+    from aioslsk.events import EventBus, MessageReceivedEvent
     from aioslsk.protocol.messages import PeerTransferReply, GetUserStatus
     from async_timeout import timeout as atimeout
 
     msg_classes = {0: PeerTransferReply.Request, 1: GetUserStatus.Response}
     deadlines = _deadlines(case)
     counter = _LogCounter()
-    lg = logging.getLogger('aioslsk.network.connection')
-    saved = (lg.level, lg.propagate, list(lg.handlers))
-    lg.handlers = [counter]
-    lg.propagate = False
-    lg.setLevel(logging.DEBUG)
+    quiet = []
+    for name in ('aioslsk.network.connection', 'aioslsk.events', 'aioslsk.network.network'):
+        lg = logging.getLogger(name)
+        quiet.append((lg, lg.level, lg.propagate, list(lg.handlers)))
+        lg.handlers = [counter] if name.endswith('connection') else [logging.NullHandler()]
+        lg.propagate = False
+        lg.setLevel(logging.DEBUG)
+    readers = bool(case.get('readers'))
+    rounds = _rounds(case)
+    nlisteners = max([len(_progs_of(op)) for rnd in rounds for op in rnd['batch']] + [0])
 
     async def main(loop):
         bus = EventBus()
         net = Network(Settings(credentials={'username': 'u', 'password': 'p'}), bus)
-        T0 = loop.time()
-        conns: dict[str, Any] = {'s': net.server_connection}
-
-        def conn_of(c: str):
-            if c not in conns:
-                user = None if c == 'pN' else f'user{c[1:]}'
-                conns[c] = PeerConnection('10.0.0.1', 2000 + len(conns), net, username=user)
-            return conns[c]
-
+        conns: dict[str, Any] = {}
+        inbox: dict[str, list] = {c: [] for c in CONN_NAMES}
+        waiting: dict[str, asyncio.Future] = {}      # connection -> the future its reader task waits on
+        events: list = []                # (loop iteration, kind, ...) in program order — for the monitor only
         futs: dict[int, Any] = {}        # tag -> ExpectedResponse
         tasks: dict[int, asyncio.Task] = {}
         tag_of_fut: dict[int, int] = {}
-        msgs: list = []                  # delivered message objects, index = message number
+        msgs: list = []                  # message objects that entered on_message_received, index = message number
+        number: dict[int, int] = {}      # id(message) -> message number
+        programs: dict[int, list] = {}   # id(message) -> listener programs
+        op_of: dict[int, list] = {}      # id(message) -> the script op that made it
+        content: dict[int, list] = {}    # message number -> script op
+        returned: set[int] = set()
+        started: set[int] = set()        # caller tasks that ran their first step
+        armed: set[int] = set()
+        nested: set[int] = set()
+        nested_out: dict[int, Any] = {}
+        gates: dict[int, asyncio.Future] = {}
+        keep: list = []
         current = {'tag': None}
+
+        def fut_states():
+            return {tag: fut_state(f) for tag, f in futs.items()}
+
+        def conn_of(c: str):
+            if c not in conns:
+                if c == 's':
+                    conn = net.server_connection
+                else:
+                    user = None if c == 'pN' else f'user{c[1:]}'
+                    conn = PeerConnection('10.0.0.1', 2000 + CONN_NAMES.index(c), net, username=user,
+                                          connection_type=PeerConnectionType.PEER)
+                    net.peer_connections.append(conn)
+                conn._writer = _StubWriter()
+                conn.state = ConnectionState.CONNECTED      # an established connection (no events: nobody listens)
+                orig = conn._perform_message_callback
+
+                async def perform(message, _orig=orig, _c=c):
+                    # entry and exit of what the reader loop awaits for one decoded message
+                    n = len(msgs)
+                    msgs.append(message)
+                    number[id(message)] = n
+                    content[n] = op_of[id(message)]
+                    events.append((loop.iterations, 'arrive', n, _c, fut_states()))
+                    try:
+                        await _orig(message)
+                    finally:
+                        returned.add(n)
+                        events.append((loop.iterations, 'return', n, fut_states()))
+                conn._perform_message_callback = perform
+                conns[c] = conn
+            return conns[c]
 
         def record(f):
             tag = current['tag']
@@ -218,7 +349,12 @@ def _run_impl(case: dict) -> dict:
         net.create_peer_response_future = lambda *a, **k: record(orig_p(*a, **k))
 
         def timeout_of(tag):
-            return (T0 + deadlines[tag] if tag in deadlines else T0 + FAR) - loop.time()
+            if tag in deadlines:
+                d = T0 + deadlines[tag] - loop.time()
+                if d > 0.25:            # a deadline that has passed already is no deadline (would fire at once)
+                    armed.add(tag)
+                    return d
+            return T0 + FAR - loop.time()
 
         def create(tag, m):
             current['tag'] = tag
@@ -228,18 +364,21 @@ def _run_impl(case: dict) -> dict:
 
         async def raw_caller(tag, fut):
             # the way transfer/manager.py:748-755, 908-915 await such a future
+            started.add(tag)
             async with atimeout(timeout_of(tag)):
                 _, response = await fut
             return response
 
-        async def wait_caller(tag, m):
+        def wait_coro(tag, m):
             current['tag'] = tag      # consumed by the create_*_response_future call in the coroutine's first step
             if m['cls'] == 's':
-                co = net.wait_for_server_message(msg_classes[m['msg']], fields=_py_fields(m), timeout=timeout_of(tag))
-            else:
-                co = net.wait_for_peer_message(f"user{m['peer']}", msg_classes[m['msg']], fields=_py_fields(m),
-                                               timeout=timeout_of(tag))
-            return await co
+                return net.wait_for_server_message(msg_classes[m['msg']], fields=_py_fields(m), timeout=timeout_of(tag))
+            return net.wait_for_peer_message(f"user{m['peer']}", msg_classes[m['msg']], fields=_py_fields(m),
+                                             timeout=timeout_of(tag))
+
+        async def wait_caller(tag, m):
+            started.add(tag)
+            return await wait_coro(tag, m)
 
         class StubCommand:
             def __init__(self, tag, mode, m):
@@ -267,9 +406,100 @@ def _run_impl(case: dict) -> dict:
         client_stub = types.SimpleNamespace(session=object(), network=net)
 
         async def exec_caller(tag, mode, m):
+            started.add(tag)
             # execute() arms its timeout after `send`; a suspending send moves that one iteration (= 1 s) later
             return await SoulSeekClient.execute(client_stub, StubCommand(tag, mode, m), response=True,
                                                 timeout=timeout_of(tag) - (1.0 if mode >= 2 else 0.0))
+
+        def spawn(op):
+            kind = op[0]
+            if kind == 'raw':
+                f = create(op[1], op[2])
+                tasks[op[1]] = loop.create_task(raw_caller(op[1], f))
+            elif kind == 'wait':
+                tasks[op[1]] = loop.create_task(wait_caller(op[1], op[2]))
+            else:
+                tasks[op[1]] = loop.create_task(exec_caller(op[1], op[2], op[3]))
+
+        def cancel_fut(tag):
+            if tag in futs:
+                events.append((loop.iterations, 'cancel', tag))
+                futs[tag].cancel()
+
+        def cancel_task(tag, by_handler):
+            # (a task cancelled before its first step would never register / await anything)
+            if tag in tasks and (tag in started or not by_handler):
+                events.append((loop.iterations, 'cancel', tag))
+                events.append((loop.iterations, 'canceltask', tag))
+                tasks[tag].cancel()
+
+        def gate(g):
+            if g not in gates:
+                gates[g] = loop.create_future()
+            return gates[g]
+
+        # -- what the handlers of a message do ------------------------------------------------------------
+        async def nested_request(act):
+            kind, tag, m = act
+            nested.add(tag)
+            try:
+                if kind == 'nwait':
+                    res = await wait_coro(tag, m)
+                else:
+                    res = await SoulSeekClient.execute(client_stub, StubCommand(tag, 0, m), response=True,
+                                                       timeout=timeout_of(tag))
+                nested_out[tag] = res
+            except TimeoutError:
+                nested_out[tag] = 'T'
+            except asyncio.CancelledError:
+                if asyncio.current_task().cancelling():      # the reader task itself is being cancelled (teardown)
+                    raise
+                nested_out[tag] = 'C'                         # the request's future was cancelled
+            except asyncio.InvalidStateError:
+                nested_out[tag] = 'I'
+            except Exception as e:  # noqa
+                nested_out[tag] = 'E:' + type(e).__name__
+
+        async def run_prog(prog):
+            for act in prog:
+                k = act[0]
+                if k == 'sleep':
+                    for _ in range(act[1]):
+                        await asyncio.sleep(0)
+                elif k == 'gate':
+                    await gate(act[1])
+                elif k == 'close':
+                    await conn_of(act[1]).disconnect(CloseReason.REQUESTED)
+                elif k in SPAWN:
+                    spawn(act)
+                elif k in NEST:
+                    await nested_request(act)
+                elif k == 'cancelfut':
+                    cancel_fut(act[1])
+                elif k == 'canceltask':
+                    cancel_task(act[1], True)
+                elif k == 'raise':
+                    raise _ListenerFails()
+                else:
+                    raise ValueError(f'bad action {act!r}')
+
+        def make_listener(j):
+            async def listener(event):
+                n = number.get(id(event.message))
+                progs = programs.get(id(event.message)) or []
+                if n is None or j >= len(progs):
+                    return
+                events.append((loop.iterations, 'hstart', n, j))
+                try:
+                    await run_prog(progs[j])
+                finally:
+                    events.append((loop.iterations, 'hend', n, j))
+            return listener
+
+        listeners = [make_listener(j) for j in range(nlisteners)]
+        for l in listeners:
+            bus.register(MessageReceivedEvent, l)
+        keep.append(listeners)
 
         def fut_state(f):
             if not f.done():
@@ -284,18 +514,26 @@ def _run_impl(case: dict) -> dict:
             except Exception:
                 return 'R?'
 
-        def out_state(t: Optional[asyncio.Task]):
+        def res_state(res):
+            for i, mm in enumerate(msgs):
+                if mm is res:
+                    return f'r{i}'
+            return 'r?'
+
+        def out_state(tag):
+            if tag in nested:
+                if tag not in nested_out:
+                    return '-'
+                o = nested_out[tag]
+                return o if isinstance(o, str) else res_state(o)
+            t: Optional[asyncio.Task] = tasks.get(tag)
             if t is None or not t.done():
                 return '-'
             if t.cancelled():
                 return 'C'
             exc = t.exception()
             if exc is None:
-                res = t.result()
-                for i, mm in enumerate(msgs):
-                    if mm is res:
-                        return f'r{i}'
-                return 'r?'
+                return res_state(t.result())
             if isinstance(exc, asyncio.InvalidStateError):
                 return 'I'
             if isinstance(exc, TimeoutError):
@@ -308,32 +546,69 @@ def _run_impl(case: dict) -> dict:
 
         def snap():
             order = [str(tag_of_fut.get(id(f), '?')) for f in net._expected_response_futures]
-            ents = [f'{tag}:{fut_state(futs[tag])}:{out_state(tasks.get(tag))}' for tag in sorted(futs)]
-            snaps.append(f"n={len(msgs)} e={counter.errors} order={','.join(order)} | {' '.join(ents)}")
+            ents = [f'{tag}:{fut_state(futs[tag])}:{out_state(tag)}' for tag in sorted(futs)]
+            closing = [c for c in CONN_NAMES if c in conns and
+                       conns[c].state in (ConnectionState.CLOSING, ConnectionState.CLOSED)]
+            calls = ''.join('d' if n in returned else 'r' for n in range(len(msgs)))
+            snaps.append(f"n={len(msgs)} e={counter.errors} order={','.join(order)} c={','.join(closing)} h={calls}"
+                         f" | {' '.join(ents)}")
 
-        keep = []
-        rounds = case['rounds'] + [{'batch': [], 'fire': []}] * EXTRA_ROUNDS
+        if readers:
+            # one reader task per connection: the REAL `_message_reader_loop`; only the source of decoded messages
+            # (`receive_message_object`, i.e. socket + parser) is replaced by the scripted stream
+            def make_source(c):
+                async def receive_message_object():
+                    while not inbox[c]:
+                        g = loop.create_future()
+                        waiting[c] = g
+                        await g
+                    return inbox[c].pop(0)
+                return receive_message_object
+            for c in CONN_NAMES:
+                conn = conn_of(c)
+                conn.receive_message_object = make_source(c)
+                conn.start_reader_task()
+                keep.append(conn._reader_task)
+            await asyncio.sleep(0)
+            await asyncio.sleep(0)
+
+        T0 = loop.time()
+        loop._vt = T0 + 0.5
+
+        def new_message(op):
+            _, c, cls, attrs = op[:4]
+            message = msg_classes[cls](**{FIELD_NAMES[f]: v for f, v in attrs})
+            programs[id(message)] = _progs_of(op)
+            op_of[id(message)] = op
+            keep.append(message)
+            return message
+
         for r, rnd in enumerate(rounds):
+            events.append((loop.iterations, 'round', r))
             for op in rnd['batch']:
                 kind = op[0]
-                if kind == 'raw':
-                    f = create(op[1], op[2])
-                    tasks[op[1]] = loop.create_task(raw_caller(op[1], f))
-                elif kind == 'wait':
-                    tasks[op[1]] = loop.create_task(wait_caller(op[1], op[2]))
-                elif kind == 'exec':
-                    tasks[op[1]] = loop.create_task(exec_caller(op[1], op[2], op[3]))
+                if kind in SPAWN:
+                    spawn(op)
                 elif kind == 'msg':
-                    _, c, cls, attrs = op
-                    vals = {FIELD_NAMES[f]: v for f, v in attrs}
-                    message = msg_classes[cls](**vals)
-                    msgs.append(message)
+                    conn = conn_of(op[1])
+                    message = new_message(op)
                     # exactly what DataConnection._message_reader_loop does with a decoded message
-                    await conn_of(c)._perform_message_callback(message)
+                    if not conn._is_closing:
+                        await conn._perform_message_callback(message)
+                elif kind == 'feed':
+                    conn_of(op[1])
+                    inbox[op[1]].append(new_message(op))
+                    g = waiting.pop(op[1], None)
+                    if g is not None and not g.done():
+                        g.set_result(None)
+                elif kind == 'open':
+                    g = gate(op[1])
+                    if not g.done():
+                        g.set_result(None)
                 elif kind == 'cancelfut':
-                    futs[op[1]].cancel()
+                    cancel_fut(op[1])
                 elif kind == 'canceltask':
-                    tasks[op[1]].cancel()
+                    cancel_task(op[1], False)
                 else:
                     raise ValueError(f'bad op {op!r}')
                 snap()
@@ -342,16 +617,17 @@ def _run_impl(case: dict) -> dict:
             await asyncio.sleep(0)
             snap()
         keep.append((bus, conns))
-        return snaps
+        return snaps, events, sorted(armed), content
 
     try:
-        snaps, loop = simloop.run(main)
-        return {'snaps': snaps, 'loop_exceptions': [e for e in loop.exceptions
-                                                     if e.get('type') not in (None, 'CancelledError')]}
+        (snaps, events, armed, content), loop = simloop.run(main)
+        return {'snaps': snaps, 'events': events, 'armed': armed, 'content': content,
+                'loop_exceptions': [e for e in loop.exceptions if e.get('type') not in (None, 'CancelledError')]}
     finally:
-        lg.setLevel(saved[0])
-        lg.propagate = saved[1]
-        lg.handlers = saved[2]
+        for lg, level, propagate, handlers in quiet:
+            lg.setLevel(level)
+            lg.propagate = propagate
+            lg.handlers = handlers
 
 
 # --------------------------------------------------------------------------------------------
@@ -365,22 +641,46 @@ def _matcher_tokens(m: dict) -> list[str]:
     return toks
 
 
+def _act_tokens(a: list) -> list[str]:
+    k = a[0]
+    if k in ('sleep', 'gate', 'cancelfut', 'canceltask'):
+        return [k, str(a[1])]
+    if k == 'close':
+        return [k, a[1]]
+    if k in ('raw', 'wait', 'nwait', 'nexec'):
+        return [k, str(a[1])] + _matcher_tokens(a[2])
+    if k == 'exec':
+        return [k, str(a[1]), str(a[2])] + _matcher_tokens(a[3])
+    if k == 'raise':
+        return [k]
+    raise ValueError(f'bad action {a!r}')
+
+
+def _msg_tokens(op: list) -> list[str]:
+    _, c, cls, attrs = op[:4]
+    toks = [op[0], c, str(cls), str(len(attrs))]
+    for f, v in attrs:
+        toks += [str(f), 'N' if v is None else str(v)]
+    progs = _progs_of(op)
+    toks.append(str(len(progs)))
+    for prog in progs:
+        toks.append(str(len(prog)))
+        for a in prog:
+            toks += _act_tokens(a)
+    return toks
+
+
 def _model_lines(case: dict) -> list[str]:
     lines = ['reset']
-    rounds = case['rounds'] + [{'batch': [], 'fire': []}] * EXTRA_ROUNDS
-    for rnd in rounds:
+    for rnd in _rounds(case):
         for op in rnd['batch']:
             k = op[0]
             if k in ('raw', 'wait'):
                 lines.append(' '.join([k, str(op[1])] + _matcher_tokens(op[2])))
             elif k == 'exec':
                 lines.append(' '.join([k, str(op[1]), str(op[2])] + _matcher_tokens(op[3])))
-            elif k == 'msg':
-                _, c, cls, attrs = op
-                toks = ['msg', c, str(cls), str(len(attrs))]
-                for f, v in attrs:
-                    toks += [str(f), 'N' if v is None else str(v)]
-                lines.append(' '.join(toks))
+            elif k in ('msg', 'feed'):
+                lines.append(' '.join(_msg_tokens(op)))
             else:
                 lines.append(f'{k} {op[1]}')
         lines.append(' '.join(['yield'] + [str(t) for t in rnd['fire']]))
@@ -399,26 +699,115 @@ def _parse_snap(s: str) -> dict:
         tag, fut, out = e.split(':', 2)
         ents[int(tag)] = (fut, out)
     return {'n': int(parts['n']), 'e': int(parts['e']),
-            'order': [x for x in parts['order'].split(',') if x], 'w': ents}
+            'order': [x for x in parts['order'].split(',') if x], 'w': ents,
+            'closing': [x for x in parts.get('c', '').split(',') if x], 'calls': parts.get('h', '')}
+
+
+def _requests_of(case: dict):
+    """tag -> (kind, exec mode, matcher) of every request the script makes (driving task and handlers)"""
+    out = {}
+    for rnd in case['rounds']:
+        for op in rnd['batch']:
+            if op[0] in SPAWN:
+                out[op[1]] = (op[0], op[2] if op[0] == 'exec' else 0, op[-1])
+            for prog in _progs_of(op):
+                for a in prog:
+                    if a[0] in SPAWN or a[0] in NEST:
+                        out[a[1]] = (a[0], a[2] if a[0] == 'exec' else 0, a[-1])
+    return out
+
+
+def _message_obligations(case: dict, impl: dict, reqs: dict, final_futs: dict, add):
+    """every request pending when a message ARRIVES (enters on_message_received) that the message answers is
+    completed with it — unless, while the message's OWN handlers were running / suspended, the request was
+    cancelled, timed out or completed by another message; a request is only ever completed by a message that
+    answers it.  Time that passes between arrival and completion outside the message's own handlers excuses nothing."""
+    ev = impl['events']
+    rounds = _rounds(case)
+    armed = set(impl.get('armed', []))
+    round_iter = {e[2]: e[0] for e in ev if e[1] == 'round'}
+    keyed = [((e[0], 0, i), e) for i, e in enumerate(ev)]
+    fire_key = {}
+    for r, rnd in enumerate(rounds):
+        for p, tag in enumerate(rnd['fire']):
+            if tag in armed and r in round_iter:
+                fire_key[tag] = (round_iter[r], 1, p)      # timers run last in the iteration of round r
+    cancel_keys: dict[int, list] = {}
+    arrive, ret, hints, content = {}, {}, {}, {}
+    for key, e in keyed:
+        if e[1] == 'cancel':
+            cancel_keys.setdefault(e[2], []).append(key)
+        elif e[1] == 'arrive':
+            arrive[e[2]] = (key, e)
+        elif e[1] == 'return':
+            ret[e[2]] = (key, e)
+        elif e[1] == 'hstart':
+            hints.setdefault(e[2], {})[e[3]] = [key, None]
+        elif e[1] == 'hend':
+            hints[e[2]][e[3]][1] = key
+    content = impl.get('content') or {}      # message number -> the script op it was made from
+    for n, (ka, ea) in sorted(arrive.items()):
+        _, _, _, conn, states = ea
+        op = content.get(n)
+        if op is None:
+            continue
+        _, c, cls, attrs = op[:4]
+        assert c == conn
+        intervals = [(s, e if e is not None else INF) for s, e in hints.get(n, {}).values()]
+        running = any(e == INF for _s, e in intervals)
+        kr, er = ret.get(n, (None, None))
+        after = er[3] if er is not None else final_futs
+        where = {'message': n, 'conn': conn, 'cls': cls, 'attrs': attrs, 'handlers': _progs_of(op),
+                 'returned': er is not None}
+        for tag, st in after.items():
+            if st == f'R{n}' and tag in reqs and not _spec_match(reqs[tag][2], conn, cls, attrs):
+                add('C12-wrong-completion', f'message #{n} does not answer request {tag} but completed it', where, 'P')
+        for tag, st in states.items():
+            if st != 'P' or tag not in reqs or not _spec_match(reqs[tag][2], conn, cls, attrs):
+                continue
+            s1 = after.get(tag, '?')
+            if s1 == f'R{n}':
+                continue
+            if s1 == 'P' and er is None and running:
+                continue        # its handlers are still running at the end of the script: nothing is due yet
+            cands = list(cancel_keys.get(tag, []))
+            if tag in fire_key:
+                cands.append(fire_key[tag])
+            if s1.startswith('R') and s1[1:].isdigit() and int(s1[1:]) in ret:
+                cands.append(ret[int(s1[1:])][0])
+            excused = s1 != 'P' and any(s < k < e for k in cands for (s, e) in intervals)
+            if not excused:
+                if er is None:
+                    how = ('the message entered on_message_received, none of its handlers is running, but the call '
+                           'never got to completing its waiters')
+                else:
+                    how = 'its handlers returned and on_message_received ended'
+                add('C12-missed-completion',
+                    f'message #{n} answers request {tag}, which was pending when it arrived; {how}; the request is '
+                    f'{s1} (nothing ended it while the handlers of #{n} ran)', dict(where, request=tag, state=s1),
+                    f'R{n}')
 
 
 def _monitor(case: dict, impl: dict) -> list[Violation]:
     vs: list[Violation] = []
     snaps = [_parse_snap(s) for s in impl['snaps']]
-    matcher_of: dict[int, dict] = {}
-    kind_of: dict[int, str] = {}
-    never_awaits: set[int] = set()
+    reqs = _requests_of(case)
+    armed = set(impl.get('armed', []))
+    never_awaits = {t for t, (k, mode, _m) in reqs.items() if k == 'exec' and mode == 4}
     cancelled_task: set[int] = set()
-    cancelled_fut: set[int] = set()
     fired_pending: set[int] = set()      # timeout fired while the future was still pending
     fired_waiting: set[int] = set()      # timeout fired while the caller was still waiting
-    rounds = case['rounds'] + [{'batch': [], 'fire': []}] * EXTRA_ROUNDS
+    rounds = _rounds(case)
     prev = {'n': 0, 'e': 0, 'order': [], 'w': {}}
     begin_prev: Optional[dict] = None    # snapshot at the previous round begin
     i = 0
+    seen = set()
 
     def add(sig, what, observed=None, required=None):
-        vs.append(Violation(sig, what, case, observed=observed, required=required))
+        key = (sig, what)
+        if key not in seen:
+            seen.add(key)
+            vs.append(Violation(sig, what, case, observed=observed, required=required))
 
     def stable(before, after, where, exempt=()):
         # a completed future never changes; a caller gets exactly one answer
@@ -433,34 +822,15 @@ def _monitor(case: dict, impl: dict) -> list[Violation]:
             if o0 != '-' and o1 != o0:
                 add('C12-completed-twice', f'caller of request {tag} got {o0} and then {o1}', where)
 
+    # a canceltask by the script (driving task or a handler) on a caller that was still waiting
+    for e in impl['events']:
+        if e[1] == 'canceltask':
+            cancelled_task.add(e[2])      # (only used to EXEMPT a caller from the rules about its answer)
+
     for r, rnd in enumerate(rounds):
         for op in rnd['batch']:
             cur = snaps[i]
             where = {'round': r, 'op': op, 'before': impl['snaps'][i - 1] if i else None, 'after': impl['snaps'][i]}
-            k = op[0]
-            if k in ('raw', 'wait', 'exec'):
-                matcher_of[op[1]] = op[-1]
-                kind_of[op[1]] = k
-                if k == 'exec' and op[2] == 4:
-                    never_awaits.add(op[1])
-            if k == 'canceltask' and prev['w'].get(op[1], ('', ''))[1] == '-':
-                cancelled_task.add(op[1])
-            if k == 'cancelfut':
-                cancelled_fut.add(op[1])
-            if k == 'msg':
-                _, c, cls, attrs = op
-                n = prev['n']
-                for tag, (f0, _o0) in prev['w'].items():
-                    f1 = cur['w'].get(tag, ('?', '?'))[0]
-                    if f0 != 'P':
-                        continue
-                    want = _spec_match(matcher_of[tag], c, cls, attrs)
-                    if want and f1 != f'R{n}':
-                        add('C12-missed-completion',
-                            f'message #{n} answers pending request {tag} but its future is {f1}', where, f'R{n}')
-                    if not want and f1 != 'P':
-                        add('C12-wrong-completion',
-                            f'message #{n} does not answer request {tag} but its future became {f1}', where, 'P')
             stable(prev, cur, where)
             if cur['e'] > prev['e']:
                 add('C12-invalid-state', '"error during callback": on_message_received raised while completing '
@@ -473,11 +843,14 @@ def _monitor(case: dict, impl: dict) -> list[Violation]:
                  'after': impl['snaps'][i]}
         for tag in rnd['fire']:
             f0, o0 = prev['w'].get(tag, ('?', '?'))
-            if o0 == '-':
+            if o0 == '-' and tag in armed:
                 fired_waiting.add(tag)
                 if f0 == 'P':
                     fired_pending.add(tag)
         stable(prev, cur, where)
+        if cur['e'] > prev['e']:
+            add('C12-invalid-state', '"error during callback": on_message_received raised while completing '
+                'expected responses; waiters after the failing one are skipped', where, 'no internal error')
         # residue: a future that was done at the previous round begin is not listed one iteration later
         if begin_prev is not None:
             for tag, (f0, _o) in begin_prev['w'].items():
@@ -489,7 +862,11 @@ def _monitor(case: dict, impl: dict) -> list[Violation]:
         i += 1
 
     final = snaps[-1]
+    _message_obligations(case, impl, reqs, {t: f for t, (f, _o) in final['w'].items()}, add)
+    # a call of on_message_received that is over although its handlers are not, or the reverse, is caught above through
+    # its waiters; a call that never ends without any handler of its own running blocks the connection's reader for good
     for tag, (f, o) in final['w'].items():
+        kind = reqs.get(tag, (None, 0, None))[0]
         if o == 'I':
             add('C12-invalid-state', f'caller of request {tag} got asyncio.InvalidStateError', impl['snaps'][-1],
                 'TimeoutError / result / CancelledError')
@@ -503,10 +880,10 @@ def _monitor(case: dict, impl: dict) -> list[Violation]:
         if o.startswith('r') and o != 'r?' and f != 'R' + o[1:]:
             add('C12-wrong-result', f'caller of request {tag} got message {o} but its future is {f}', impl['snaps'][-1])
         # (a mode-4 execute() is still inside command.send — it has not started to wait for the reply)
-        if f.startswith('R') and o == '-' and kind_of.get(tag) is not None and tag not in never_awaits:
+        if f.startswith('R') and o == '-' and kind is not None and tag not in never_awaits:
             add('C12-caller-not-answered', f'request {tag} completed with {f} but its caller is still waiting at '
                 'quiescence', impl['snaps'][-1])
-        send_failed = kind_of.get(tag) == 'exec' and o == 'S'      # execute() re-raises the failure of command.send
+        send_failed = kind == 'exec' and o == 'S'      # execute() re-raises the failure of command.send
         if (f.startswith('R') and tag not in fired_waiting and tag not in cancelled_task and not send_failed
                 and o not in ('-', 'r' + f[1:], 'I')):
             add('C12-wrong-result', f'request {tag} completed with {f} (no timeout, no cancel) but its caller got {o}',
@@ -701,6 +1078,324 @@ DIRECTED = [
 ]
 
 
+# ---- handler families: what the handlers of a message do between its arrival and the completion of its waiters ----
+
+def _peer_conn(rng: random.Random, peer) -> str:
+    if peer is None:
+        return rng.choice(['p0', 'p1', 'pN', 'q0'])
+    return rng.choice([f'p{peer}', f'p{peer}', f'q{peer}'])
+
+
+def _reply_to(rng: random.Random, m: dict, pmatch: float = 0.9) -> list:
+    """[conn, cls, attrs] of a message that (mostly) answers matcher m"""
+    cls = m['msg']
+    conn = 's' if m['cls'] == 's' else _peer_conn(rng, m['peer'])
+    vals = {f: rng.choice(VALS) for f in CLASS_FIELDS[cls]}
+    for f, e in m['fields']:
+        if f in vals:
+            vals[f] = _satisfying(rng, e)
+    if rng.random() > pmatch:
+        r = rng.random()
+        if r < 0.4:
+            vals[rng.choice(CLASS_FIELDS[cls])] = rng.choice(VALS)
+        elif r < 0.7:
+            conn = rng.choice(CONN_NAMES)
+        else:
+            cls = 1 - cls
+            vals = {f: rng.choice(VALS) for f in CLASS_FIELDS[cls]}
+    return [conn, cls, [[f, vals[f]] for f in CLASS_FIELDS[cls]]]
+
+
+def _easy_matcher(rng: random.Random, kind: str) -> dict:
+    """a matcher some message can satisfy (most handler scenarios want the reply to answer the request)"""
+    for _ in range(20):
+        m = _gen_matcher(rng, 'exec' if kind in ('exec', 'nexec') else kind, None)
+        own = CLASS_FIELDS[m['msg']]
+        if all(f in own and any((_pred(e)(v) if e[0] == 'p' else v == _const(e)) for v in VALS) for f, e in m['fields']):
+            return m
+    return {'cls': 's', 'msg': 1, 'peer': None, 'fields': []}
+
+
+def _gen_hcase(rng: random.Random, kind: Optional[str] = None) -> dict:
+    kind = kind or rng.choice(['h-close', 'h-close', 'h-nested', 'h-nested', 'h-mixed', 'h-mixed', 'h-inline'])
+    readers = kind != 'h-inline'
+    nrounds = rng.randint(5, 9)
+    rounds = [{'batch': [], 'fire': []} for _ in range(nrounds)]
+    state = {'tag': 0, 'gate': 0}
+    by_d: list = []          # (tag, round, kind, mode, matcher) spawned by the driving task
+    by_h: list = []          # (tag, round of the message, kind, matcher) made by handlers
+    nested_tags: set = set()
+    gates_used: list = []    # (gate, round of the message)
+    later: dict[int, list] = {}      # round -> ops to add
+
+    def new_tag():
+        state['tag'] += 1
+        return state['tag'] - 1
+
+    def d_spawn(r, m=None, wk=None):
+        wk = wk or rng.choice(['raw', 'wait', 'wait', 'exec'])
+        mode = rng.choice([0, 0, 0, 0, 2, 1]) if wk == 'exec' else 0
+        m = m or _easy_matcher(rng, wk)
+        if wk != 'exec' and (m['cls'] == 's') != (m['peer'] is None):
+            m = dict(m, peer=None if m['cls'] == 's' else rng.randint(0, 1))
+        tag = new_tag()
+        rounds[r]['batch'].append([wk, tag, m] if wk != 'exec' else [wk, tag, mode, m])
+        by_d.append((tag, r, wk, mode, m))
+        return tag, m
+
+    def known_matchers(r):
+        return [w[4] for w in by_d if w[1] <= r] + [w[3] for w in by_h if w[1] <= r]
+
+    def gen_prog(r, own_conn, msg_triple, depth_ok=True) -> list:
+        """one listener's program for a message fed in round r on own_conn"""
+        prog = []
+        for _ in range(rng.choice([1, 1, 2, 2, 3])):
+            x = rng.random()
+            if not readers:
+                x = 0.3 + x * 0.7          # no suspending actions
+                if 0.62 <= x < 0.8:
+                    x = 0.5
+            if x < 0.2:
+                prog.append(['sleep', rng.choice([1, 1, 2, 3])])
+            elif x < 0.3:
+                g = state['gate']
+                state['gate'] += 1
+                gates_used.append((g, r))
+                prog.append(['gate', g])
+            elif x < 0.5:
+                prog.append(['close', own_conn if rng.random() < 0.7 else rng.choice(CONN_NAMES)])
+            elif x < 0.62:
+                wk = rng.choice(['raw', 'wait', 'exec'])
+                # often a request the message being handled itself answers (registered while it is handled)
+                m = _easy_matcher(rng, wk)
+                tag = new_tag()
+                prog.append([wk, tag, m] if wk != 'exec' else [wk, tag, rng.choice([0, 0, 1]), m])
+                by_h.append((tag, r, wk, m))
+            elif x < 0.8 and depth_ok:
+                wk = rng.choice(['nwait', 'nwait', 'nexec'])
+                m = _easy_matcher(rng, wk)
+                tag = new_tag()
+                prog.append([wk, tag, m])
+                by_h.append((tag, r, wk, m))
+                nested_tags.add(tag)
+                # its reply: mostly on ANOTHER connection, while this handler is still running
+                if rng.random() < 0.85:
+                    rep = _reply_to(rng, m, 0.92)
+                    if rng.random() < 0.2 and m['cls'] == ('s' if own_conn == 's' else 'p'):
+                        rep[0] = own_conn        # same connection, later in the stream: stays behind this handler
+                    rr = min(nrounds - 1, r + rng.choice([0, 1, 1, 2, 3]))
+                    progs = [] if rng.random() < 0.7 else [[['sleep', rng.choice([1, 2])]]]
+                    later.setdefault(rr, []).append(['feed'] + rep + [progs])
+            elif x < 0.9:
+                cands = [w[0] for w in by_d if w[1] < r] + [w[0] for w in by_h if w[1] <= r]
+                if cands:
+                    t = rng.choice(cands)
+                    if rng.random() < 0.6 or t in nested_tags:
+                        prog.append(['cancelfut', t])
+                    else:
+                        prog.append(['canceltask', t])
+            else:
+                prog.append(['raise'])
+        return prog
+
+    def gen_progs(r, own_conn, triple, p_some=0.7):
+        if rng.random() > p_some:
+            return []
+        progs = [gen_prog(r, own_conn, triple) if rng.random() < 0.7 else [] for _ in range(rng.choice([1, 1, 2, 3]))]
+        return progs
+
+    mop = 'feed' if readers else 'msg'
+    # requests of the driving task
+    for _ in range(rng.randint(1, 3)):
+        d_spawn(rng.choice([0, 0, 1]))
+    if rng.random() < 0.3:
+        d_spawn(rng.randint(2, nrounds - 2))
+
+    if kind == 'h-close':
+        # a reply whose handling closes the connection it came on (in the handler, after a suspension, from a second
+        # listener, or from the handler of a message on ANOTHER connection while this one is suspended)
+        tag, r0, wk, mode, m = rng.choice([w for w in by_d if w[1] <= 1])
+        r = rng.randint(max(1, r0 + 1), nrounds - 2)
+        rep = _reply_to(rng, m, 0.97)
+        own = rep[0]
+        variant = rng.choice(['sync', 'sync', 'after-sleep', 'before-sleep', 'second-listener', 'other-conn'])
+        if variant == 'sync':
+            progs = [[['close', own]]]
+        elif variant == 'after-sleep':
+            progs = [[['sleep', rng.choice([1, 2])], ['close', own]]]
+        elif variant == 'before-sleep':
+            progs = [[['close', own], ['sleep', rng.choice([1, 2])]]]
+        elif variant == 'second-listener':
+            progs = [gen_prog(r, own, rep) if rng.random() < 0.5 else [], [['close', own]]]
+        else:
+            g = state['gate']
+            state['gate'] += 1
+            gates_used.append((g, r))
+            progs = [[['gate', g]]]
+            other = rng.choice([c for c in CONN_NAMES if c != own])
+            oc = 1 if other == 's' else rng.randint(0, 1)
+            later.setdefault(r, []).append(['feed', other, oc, [[f, rng.choice(VALS)] for f in CLASS_FIELDS[oc]],
+                                            [[['close', own]]]])
+        if not readers:
+            progs = [[a for a in p if a[0] not in ('sleep', 'gate')] for p in progs]
+        if rng.random() < 0.4:
+            progs.append(gen_prog(r, own, rep))
+        rounds[r]['batch'].append([mop] + rep + [progs])
+    elif kind == 'h-nested':
+        # message A (connection 1): a listener awaits a request inline; its reply B arrives on connection 2
+        r = rng.randint(1, nrounds - 3)
+        ms = known_matchers(r)
+        a = _reply_to(rng, rng.choice(ms), 0.8) if ms and rng.random() < 0.7 else \
+            [rng.choice(CONN_NAMES), 1, [[f, rng.choice(VALS)] for f in CLASS_FIELDS[1]]]
+        if a[0] == 's':
+            a[1], a[2] = 1, [[f, rng.choice(VALS)] for f in CLASS_FIELDS[1]] if a[1] != 1 else a[2]
+        wk = rng.choice(['nwait', 'nwait', 'nexec'])
+        # server message handler -> peer reply, peer handler -> server reply, or two peers
+        m = _easy_matcher(rng, wk)
+        if rng.random() < 0.7:
+            want = 'p' if a[0] == 's' else rng.choice(['s', 'p'])
+            for _ in range(30):
+                if m['cls'] == want:
+                    break
+                m = _easy_matcher(rng, wk)
+        tag = new_tag()
+        by_h.append((tag, r, wk, m))
+        nested_tags.add(tag)
+        pre = [rng.choice([['sleep', 1], ['raise'], ['close', a[0]]])] if rng.random() < 0.15 else []
+        pre = [x for x in pre if x[0] != 'raise']
+        post = [gen_prog(r, a[0], a)[0]] if rng.random() < 0.3 else []
+        post = [x for x in post if x and x[0] not in NEST]
+        progs = [pre + [[wk, tag, m]] + post]
+        if rng.random() < 0.3:
+            progs.insert(rng.randint(0, 1), gen_prog(r, a[0], a, depth_ok=False))
+        rounds[r]['batch'].append(['feed'] + a + [progs])
+        if rng.random() < 0.9:
+            b = _reply_to(rng, m, 0.95)
+            if b[0] == a[0] and rng.random() < 0.8:
+                alt = [c for c in ([f"p{m['peer']}", f"q{m['peer']}"] if m['cls'] == 'p' and m['peer'] is not None else [])
+                       if c != a[0]]
+                if alt:
+                    b[0] = rng.choice(alt)
+            rb = min(nrounds - 1, r + rng.choice([0, 0, 1, 1, 2]))
+            bprogs = [] if rng.random() < 0.75 else gen_progs(rb, b[0], b, 1.0)
+            later.setdefault(rb, []).append(['feed'] + b + [bprogs])
+            if rng.random() < 0.25:
+                later.setdefault(min(nrounds - 1, rb + rng.randint(0, 1)), []).append(['feed'] + [b[0], b[1], [list(x) for x in b[2]]] + [[]])
+        if rng.random() < 0.5:
+            rf = rng.randint(r + 1, nrounds - 1)
+            if len(rounds[rf]['fire']) < 8:
+                rounds[rf]['fire'].append(tag)
+    # general traffic
+    for r in range(1, nrounds):
+        n_more = rng.choice([0, 0, 1, 1, 2]) if kind in ('h-mixed', 'h-inline') else rng.choice([0, 0, 0, 1])
+        for _ in range(n_more):
+            ms = known_matchers(r)
+            trip = _reply_to(rng, rng.choice(ms), 0.85) if ms and rng.random() < 0.85 else \
+                [rng.choice(CONN_NAMES[1:]), rng.randint(0, 1), None]
+            if trip[2] is None:
+                trip[2] = [[f, rng.choice(VALS)] for f in CLASS_FIELDS[trip[1]]]
+            progs = gen_progs(r, trip[0], trip, 0.65 if kind in ('h-mixed', 'h-inline') else 0.3)
+            rounds[r]['batch'].append([mop] + trip + [progs])
+            if rng.random() < 0.2:
+                rounds[r]['batch'].append([mop, trip[0], trip[1], [list(x) for x in trip[2]], []])
+    for r, ops in later.items():
+        rounds[r]['batch'] += ops
+    # what the script really contains (actions may have been dropped while composing programs)
+    actual = _requests_of({'rounds': rounds})
+    by_h = [w for w in by_h if w[0] in actual]
+    nested_tags &= set(actual)
+    for rnd in rounds:
+        rnd['fire'] = [t for t in rnd['fire'] if t in actual]
+        for op in rnd['batch']:
+            for prog in _progs_of(op):
+                prog[:] = [a for a in prog if not (a[0] in ('cancelfut', 'canceltask') and a[1] not in actual)]
+    # replies for requests that handlers registered (raw / wait / exec)
+    for (t, r, wk, m) in list(by_h):
+        if t not in nested_tags and rng.random() < 0.6:
+            rr = min(nrounds - 1, r + rng.randint(1, 3))
+            rounds[rr]['batch'].append([mop] + _reply_to(rng, m, 0.9) + [[]])
+    # cancellations by the driving task
+    for (t, sr, wk, mode, m) in by_d:
+        if rng.random() < 0.12 and sr + 1 < nrounds:
+            rounds[rng.randint(sr + 1, nrounds - 1)]['batch'].append([rng.choice(['cancelfut', 'canceltask']), t])
+    for (t, r, wk, m) in by_h:
+        if rng.random() < 0.1:
+            rounds[rng.randint(r, nrounds - 1)]['batch'].append(['cancelfut', t])
+    # gates are opened by the driving task some rounds later (always before the script ends)
+    for g, r in gates_used:
+        rounds[min(nrounds - 1, r + rng.choice([1, 1, 2, 3]))]['batch'].append(['open', g])
+    # timeouts
+    for (t, sr, wk, mode, m) in by_d:
+        need = 3 if (wk == 'exec' and mode >= 2) else 2
+        if sr + need < nrounds and rng.random() < 0.35 and not (wk == 'exec' and mode in (1, 3, 4)):
+            r = rng.randint(sr + need, nrounds - 1)
+            if len(rounds[r]['fire']) < 8:
+                rounds[r]['fire'].append(t)
+    fired = {t for rnd in rounds for t in rnd['fire']}
+    for (t, r, wk, m) in by_h:
+        if t not in fired and rng.random() < 0.4 and r + 1 < nrounds:
+            rf = rng.randint(r + 1, nrounds - 1)
+            if len(rounds[rf]['fire']) < 8:
+                rounds[rf]['fire'].append(t)
+    for rnd in rounds:
+        # keep the order of the batch mostly as built (a reply after the message whose handler asks for it), but
+        # move the driving task's own requests of the round to the front
+        rnd['batch'].sort(key=lambda op: 0 if op[0] in SPAWN else 1)
+    return {'rounds': rounds, 'kind': kind, 'readers': readers}
+
+
+_SREQ = {'cls': 's', 'msg': 1, 'peer': None, 'fields': [[4, 'c1']]}
+_PREQ = {'cls': 'p', 'msg': 0, 'peer': 0, 'fields': [[0, 'c2']]}
+_PREQ1 = {'cls': 'p', 'msg': 0, 'peer': 1, 'fields': [[0, 'c2']]}
+_SATTR = [[4, 1], [5, 2], [6, None]]
+_PATTR = [[0, 2], [1, 1], [2, 0], [3, None]]
+_E = {'batch': [], 'fire': []}
+# directed schedules of the handler families (always run)
+DIRECTED_H = [
+    # the reply's own handler closes the connection it came on (peer-scoped wait + execute; server-scoped raw)
+    {'kind': 'directed-h-close-peer', 'readers': True, 'rounds': [
+        {'batch': [['wait', 0, _PREQ], ['exec', 1, 0, _PREQ]], 'fire': []}, _E,
+        {'batch': [['feed', 'p0', 0, _PATTR, [[['close', 'p0']]]]], 'fire': []}, _E, {'batch': [], 'fire': [0, 1]}]},
+    {'kind': 'directed-h-close-server', 'readers': True, 'rounds': [
+        {'batch': [['raw', 0, _SREQ], ['wait', 1, _SREQ]], 'fire': []}, _E,
+        {'batch': [['feed', 's', 1, _SATTR, [[], [['sleep', 1], ['close', 's'], ['sleep', 1]]]]], 'fire': []}, _E, _E]},
+    {'kind': 'directed-h-close-inline', 'rounds': [
+        {'batch': [['wait', 0, _PREQ]], 'fire': []}, _E,
+        {'batch': [['msg', 'p0', 0, _PATTR, [[['close', 'p0']]]]], 'fire': []}, _E]},
+    # closed by the handler of a message on another connection while the reply's handler is suspended
+    {'kind': 'directed-h-close-other', 'readers': True, 'rounds': [
+        {'batch': [['wait', 0, _PREQ]], 'fire': []}, _E,
+        {'batch': [['feed', 'p0', 0, _PATTR, [[['gate', 0]]]], ['feed', 's', 1, _SATTR, [[['close', 'p0']]]]], 'fire': []},
+        {'batch': [['open', 0]], 'fire': []}, _E]},
+    # a server-message listener awaits a peer reply inline (and the reverse); the reply arrives on the other connection
+    {'kind': 'directed-h-nested-server-peer', 'readers': True, 'rounds': [
+        {'batch': [['raw', 0, _SREQ]], 'fire': []}, _E,
+        {'batch': [['feed', 's', 1, _SATTR, [[['nexec', 1, _PREQ]]]]], 'fire': []},
+        {'batch': [['feed', 'p0', 0, _PATTR, []]], 'fire': []}, _E, {'batch': [], 'fire': [1]}]},
+    {'kind': 'directed-h-nested-peer-server', 'readers': True, 'rounds': [
+        {'batch': [['wait', 0, _PREQ1]], 'fire': []}, _E,
+        {'batch': [['feed', 'p1', 0, _PATTR, [[], [['nwait', 1, _SREQ]]]], ['feed', 's', 1, _SATTR, []]], 'fire': []},
+        _E, {'batch': [], 'fire': [1]}]},
+    # the same, without any timeout on the nested request
+    {'kind': 'directed-h-nested-no-timeout', 'readers': True, 'rounds': [
+        _E, {'batch': [['feed', 'p1', 0, _PATTR, [[['nwait', 0, _SREQ]]]]], 'fire': []},
+        {'batch': [['feed', 's', 1, _SATTR, []]], 'fire': []}, _E]},
+    # the reply to the nested request comes later in the SAME stream: it stays behind the handler (times out)
+    {'kind': 'directed-h-nested-same-conn', 'readers': True, 'rounds': [
+        _E, {'batch': [['feed', 's', 1, [[4, 0], [5, 0], [6, 0]], [[['nwait', 0, _SREQ]]]], ['feed', 's', 1, _SATTR, []]],
+             'fire': []}, _E, {'batch': [], 'fire': [0]}, _E]},
+    # a handler registers a request its own message answers, cancels another, and fails
+    {'kind': 'directed-h-register-cancel-raise', 'readers': True, 'rounds': [
+        {'batch': [['raw', 0, _SREQ], ['wait', 1, _SREQ]], 'fire': []}, _E,
+        {'batch': [['feed', 's', 1, _SATTR, [[['raw', 2, _SREQ], ['cancelfut', 0], ['sleep', 1], ['raise']],
+                                             [['wait', 3, _SREQ]]]]], 'fire': []}, _E, _E]},
+    # the request times out while the handlers of its reply are still running (legitimate: TimeoutError)
+    {'kind': 'directed-h-slow-handler-timeout', 'readers': True, 'rounds': [
+        {'batch': [['wait', 0, _SREQ]], 'fire': []}, _E,
+        {'batch': [['feed', 's', 1, _SATTR, [[['sleep', 3]]]]], 'fire': [0]}, _E, _E]},
+]
+
+
 def _eval_case(case):
     try:
         return _run_impl(case)
@@ -717,8 +1412,9 @@ def _features(case: dict, impl: dict) -> set[str]:
     snaps = [_parse_snap(s) for s in impl['snaps']]
     i = 0
     prev = None
-    rounds = case['rounds'] + [{'batch': [], 'fire': []}] * EXTRA_ROUNDS
+    rounds = _rounds(case)
     spawn_round = {}
+    armed = set(impl.get('armed', []))
     for r, rnd in enumerate(rounds):
         # exec callers that are (still) inside command.send during this round's batch
         sending = {t for t, (sr, mode) in spawn_round.items() if (mode in (2, 3) and r == sr + 1) or (mode == 4 and r > sr)}
@@ -750,12 +1446,60 @@ def _features(case: dict, impl: dict) -> set[str]:
             i += 1
         cur = snaps[i]
         for t in rnd['fire']:
-            if prev is not None and t in prev['w'] and prev['w'][t][1] == '-':
+            if prev is not None and t in prev['w'] and prev['w'][t][1] == '-' and t in armed:
                 feats.add('timeout-fired-on-waiting-caller')
                 if prev['w'][t][0].startswith('R'):
                     feats.add('timeout-after-reply-same-iteration')
         prev = cur
         i += 1
+    # handler features, from the harness' own event log
+    ev = impl.get('events', [])
+    content = impl.get('content') or {}
+    open_calls: dict[int, str] = {}          # message number -> connection, between arrival and return
+    states_at: dict[int, dict] = {}
+    reqs = _requests_of(case)
+    nested_tags = {t for t, (k, _m, _x) in reqs.items() if k in NEST}
+    closed_during = set()
+    for e in ev:
+        if e[1] == 'arrive':
+            if open_calls:
+                feats.add('h:calls-overlap')
+                if any(c != e[3] for c in open_calls.values()):
+                    feats.add('h:calls-overlap-across-connections')
+            open_calls[e[2]] = e[3]
+            states_at[e[2]] = e[4]
+        elif e[1] == 'return':
+            open_calls.pop(e[2], None)
+            n = e[2]
+            before, after = states_at.get(n, {}), e[3]
+            done = [t for t, s in after.items() if s == f'R{n}']
+            if done:
+                feats.add('completed-by-message')
+                op = content.get(n)
+                progs = _progs_of(op) if op else []
+                acts = [a for p in progs for a in p]
+                if any(a[0] == 'close' and a[1] == op[1] for a in acts):
+                    feats.add('h:completed-after-own-handler-closed-connection')
+                if any(a[0] in ('sleep', 'gate') or a[0] in NEST for a in acts):
+                    feats.add('h:completed-after-suspended-handler')
+                if any(t not in before for t in done):
+                    feats.add('h:completed-request-registered-by-handler')
+                if any(t in nested_tags for t in done) and open_calls:
+                    feats.add('h:nested-request-answered-while-outer-call-runs')
+                    if any(c != (op[1] if op else None) for c in open_calls.values()):
+                        feats.add('h:nested-request-answered-on-other-connection')
+    for rnd in case['rounds']:
+        for op in rnd['batch']:
+            for p in _progs_of(op):
+                for a in p:
+                    feats.add('h:act-' + a[0])
+    final = snaps[-1] if snaps else {'w': {}}
+    for t in nested_tags:
+        if t in final['w']:
+            o = final['w'][t][1]
+            feats.add('h:nested-' + ('result' if o.startswith('r') else {'T': 'timeout', 'C': 'cancelled', '-': 'waiting'}.get(o, 'other')))
+    if snaps and any(s['closing'] for s in snaps):
+        feats.add('h:connection-closed')
     return feats
 
 
@@ -763,33 +1507,46 @@ class C12(Property):
     id = 'C12'
     props_module = 'AioslskVerif.Props.C12'
     driver_module = 'AioslskVerif.Driver.C12'
-    rule = ('scripts of 4..9 loop iterations over 1..4 concurrent requests (+ up to 2 later ones) of kinds '
-            'raw future / wait_for_*_message / execute(), 2 message classes x server + 3 peer connections x field matchers '
+    rule = ('scripts of 4..9 loop iterations over 1..4 concurrent requests (+ later ones, + requests made by message '
+            'handlers) of kinds raw future / wait_for_*_message / execute(), 2 message classes x server + 5 peer connections '
+            '(2 users with 2 connections each, 1 anonymous) x field matchers '
             '(constants, predicates, several fields, missing attributes), message batches delivered back-to-back in one '
-            'task step or across iterations, timeouts fired at chosen iterations, future/task cancellations, derived '
+            'task step or across iterations, timeouts fired at chosen iterations, future/task cancellations; handler '
+            'families: messages go through one REAL reader loop per connection and carry programs for 1..3 '
+            'MessageReceivedEvent listeners (suspend 1..3 iterations / on a gate, close the connection the message came on or '
+            'another one, register requests, await a nested request inline whose reply arrives on another connection / '
+            'later in the same stream, cancel, raise); derived '
             'from VERIF_SEED; a case is non-trivial when a message completed a request AND at least one of: a timeout '
             'fired on a waiting caller, a cancellation (also of execute() inside command.send), a failing send, a message '
-            'delivered while a completed future was '
-            'still listed; distinct = distinct canonical script')
+            'delivered while a completed future was still listed, a handler that closed the connection / suspended / '
+            'registered the completed request, overlapping calls of on_message_received; distinct = distinct canonical script')
     assumptions = [
         'asyncio semantics (FIFO call_soon, done-callbacks run one iteration later, Task.cancel/must_cancel, '
-        'asyncio.Timeout) are modelled in the Lean driver\'s ready-queue mirror and validated only differentially',
+        'asyncio.Timeout, timers run last in their iteration) are modelled in the Lean driver\'s ready-queue mirror and '
+        'validated only differentially',
         'field predicates are total and do not raise; expected values are None/ints (no bool/int aliasing)',
-        'no MESSAGE_MAP handler / EventBus listener suspends between two buffered messages (true for the classes used)',
+        '"first message" is read in the order in which the handlers of the messages RETURN (per connection = arrival '
+        'order; across connections a message whose handlers are slow can be overtaken — there is no order on the wire)',
+        'a reader task is not cancelled while a handler of its message runs; Network\'s own MESSAGE_MAP handler does not raise',
         'a caller task is cancelled only after its first step ran (a task cancelled before it starts registers nothing)',
     ]
     modelled = ('ExpectedResponse.matches; create_server/peer_response_future, register_response_future, '
-                '_remove_response_future; wait_for_server/peer_message incl. timeout path; completion loop of '
-                'on_message_received; SoulSeekClient.execute (register, send ok/raises/suspends/is cancelled while suspended, '
+                '_remove_response_future; wait_for_server/peer_message incl. timeout path; on_message_received as '
+                'arrive (handlers start) / finish (completion loop) with anything in between, overlapping calls, '
+                'connection state; SoulSeekClient.execute (register, send ok/raises/suspends/is cancelled while suspended, '
                 'await with timeout). '
-                'Not modelled: MESSAGE_MAP handlers and bus listeners that run before the completion loop, '
-                'asyncio.wait-based use in _make_indirect_connection (only its fut.cancel()), real sockets/reader')
+                'Driver-level (ready-queue mirror, not theorem subjects): reader loop per connection, listener programs. '
+                'Not modelled: asyncio.wait-based use in _make_indirect_connection (only its fut.cancel()), real '
+                'sockets/parser, cancellation of a reader task inside a handler')
 
     def correspondence(self, seed, tier, model_ok, widen=1):
         res = KResult()
         rng = random.Random(f'C12-{seed}')
         n = (1200 if tier == 'quick' else 30000) * widen
-        cases = list(DIRECTED) + [_gen_case(rng) for _ in range(n)]
+        nh = (1600 if tier == 'quick' else 40000) * widen
+        cases = list(DIRECTED) + list(DIRECTED_H) + [_gen_case(rng) for _ in range(n)]
+        rng_h = random.Random(f'C12-h-{seed}')
+        cases += [_gen_hcase(rng_h) for _ in range(nh)]
         impl = common.parallel_map(_eval_case, cases)
         model = None
         if model_ok:
@@ -816,9 +1573,12 @@ class C12(Property):
             feats = _features(c, io)
             for f in feats:
                 res.count('feature:' + f)
-            if 'completed-by-message' in feats and feats & {'timeout-fired-on-waiting-caller', 'cancelfut', 'canceltask',
-                                                            'exec-mode1', 'exec-mode3', 'msg-while-done-future-listed',
-                                                            'task-cancelled-during-send'}:
+            if 'completed-by-message' in feats and feats & {
+                    'timeout-fired-on-waiting-caller', 'cancelfut', 'canceltask', 'exec-mode1', 'exec-mode3',
+                    'msg-while-done-future-listed', 'task-cancelled-during-send',
+                    'h:completed-after-own-handler-closed-connection', 'h:completed-after-suspended-handler',
+                    'h:completed-request-registered-by-handler', 'h:calls-overlap',
+                    'h:nested-request-answered-while-outer-call-runs'}:
                 res.nontrivial_keys.add(common.sha(c['rounds']))
             if model is not None:
                 res.traces_validated += 1
@@ -830,7 +1590,7 @@ class C12(Property):
                         c, io['snaps'][k] if k < len(io['snaps']) else None,
                         model[i][k] if k < len(model[i]) else None, f'line #{k}: {ml[k + 1] if k + 1 < len(ml) else ""}'))
             res.violations += _monitor(c, io)
-            if len(res.samples) < 3 and c['kind'].startswith('directed'):
+            if len(res.samples) < 3 and c['kind'].startswith('directed-h'):
                 res.samples.append({'case': c, 'impl': io['snaps']})
         return res
 
